@@ -568,7 +568,7 @@ class NF:
                 inner = m_["args"][0]
                 return self._reg(Poly.atom(f"{inner.canon()}.shape", inner.deps, frozenset()), "attr", [inner])
         if e.attr == "T":
-            return Poly.atom(f"T({base.canon()})", base.deps, base.gdeps)
+            return self._reg(Poly.atom(f"T({base.canon()})", base.deps, base.gdeps), "T", [base])
         return self._reg(Poly.atom(f"{base.canon()}.{e.attr}", base.deps, base.gdeps if e.attr not in ("shape", "ndim", "dtype", "size") else frozenset()), "attr", [base])
 
     def _e_Subscript(self, e, sc, at, depth):
